@@ -138,6 +138,14 @@ CLAIMED['C15']['text'] = ('Sequential contracts of both queues by bounded symbol
 CLAIMED['C15']['note'] = TB + 'Bounds: (producers x items, cancel) in {(1,1,0),(1,2,0),(2,1,0),(1,1,1)} quick, up to (1,3,0),(1,2,1),(2,1,1) thorough; SimpleQueue instantiated at int for the concurrent harness.'
 CLAIMED['C15']['technique'] = 'bounded symbolic execution + bounded model checking with symbolic schedules, SMT (z3)'
 
+CLAIMED['C06'] = dict(
+    text='Symbolic execution of both handshake roles against a symbolic peer (every incoming frame a free byte string): honest completion and wrong-target rejection; a responder '
+         'that reports an honest account only if that account ran this very session, given recorded requester sessions of that account towards adversary-chosen peers; the symmetric '
+         'claim for the requester. X25519 maps low-order points (an uninterpreted predicate) to zero, honest account keys are EUF-CMA, box keys derived from an honest-honest '
+         'agreement are INT-CTXT. Found the low-order ephemeral replay (fixed).',
+    note=TA + '1 recorded honest session (quick) / 2 (thorough), 1 attacked session, sessions composed sequentially (recorded ones first); framing at byte level is C18; handleIncomingRequest not included.',
+    design='6/C06')
+
 NOT_APPLICABLE = {}
 ALL = ['C%02d' % i for i in range(1, 21)]
 PENDING_REASON = 'no solver-based check registered yet for this property in the current state of /verif (see DESIGN.md section 9)'
